@@ -229,6 +229,158 @@ let run_actor_gen (legacy : bool) (dedup : bool) (toks : string list) : string =
     String.concat " | " outs
   | _ -> "?bad-case"
 
+(* ---- component: cluster (C01 C06) ----------------------------------------- *)
+let run_cluster (toks : string list) : string =
+  match toks with
+  | "cl" :: nn :: pr :: rest ->
+    let nn = int_of_string nn in
+    let probes =
+      let p = String.sub pr 7 (String.length pr - 7) in
+      List.filter (fun x -> x <> "") (String.split_on_char ',' p)
+    in
+    let c = ref (Model.cinit (nat_of_int nn)) in
+    let links = Array.make nn true in
+    let pending = Array.make nn [] in
+    let slots = Array.make nn None in
+    let nodeat i = Model.node !c (nat_of_int i) in
+    let dump i =
+      let s, st = nodeat i in
+      Printf.sprintf "n%d{%s %s}" i (show_set_dump s probes) (show_store_dump st)
+    in
+    (* pair each schedule token with its observation token, if any *)
+    let rec pairs = function
+      | [] -> []
+      | t :: o :: r when String.length o > 0 && o.[0] = '=' -> (t, Some o) :: pairs r
+      | t :: r -> (t, None) :: pairs r
+    in
+    let obs_field o name =
+      (* "=sel:1,2;ts:abc" *)
+      let body = String.sub o 1 (String.length o - 1) in
+      let fields = String.split_on_char ';' body in
+      let pre = name ^ ":" in
+      match List.find_opt (fun f -> String.length f >= String.length pre && String.sub f 0 (String.length pre) = pre) fields with
+      | Some f -> String.sub f (String.length pre) (String.length f - String.length pre)
+      | None -> ""
+    in
+    let ints s = List.map int_of_string (List.filter (fun x -> x <> "") (String.split_on_char ',' s)) in
+    let required lvl =
+      match lvl with
+      | "none" -> 0 | "one" -> 1 | "two" -> 2 | "three" -> 3
+      | "quorum" | "localquorum" | "eachquorum" -> nn / 2
+      | "all" -> nn - 1
+      | _ -> 0
+    in
+    let touched_dump l =
+      let l = List.sort_uniq compare l in
+      String.concat "" (List.map (fun i -> " " ^ dump i) l)
+    in
+    let full_repair j i = c := Model.cstep !c (Model.CRepair (nat_of_int j, nat_of_int i)) in
+    let outs =
+      List.map
+        (fun (tok, obs) ->
+          let p = String.split_on_char ':' tok in
+          match p with
+          | [ "W"; _ ] -> "W:"
+          | "I" :: i :: lvl :: kind :: rest ->
+            let i = int_of_string i in
+            let o = match obs with Some o -> o | None -> "=" in
+            let sel = ints (obs_field o "sel") in
+            let ts = obs_field o "ts" in
+            let stamp = if ts = "" then "0" else ts in
+            if stamp = "0" then begin
+              (* nothing was written (not enough nodes): no state change *)
+              let avail = nn - 1 in
+              let res = if sel = [] && required lvl > avail then Printf.sprintf "nen.%d.%d" avail (required lvl) else "err" in
+              "I:" ^ res ^ touched_dump (i :: sel)
+            end else begin
+              let items s = List.filter (fun x -> x <> "") (String.split_on_char ',' s) in
+              let m =
+                match kind, rest with
+                | "p", [ k; pl ] -> Model.MPut { Model.d_id = n k; d_ts = n stamp; d_data = n pl }
+                | "P", [ its ] ->
+                  Model.MPutMany
+                    (List.map
+                       (fun it ->
+                         match String.split_on_char '.' it with
+                         | [ k; pl ] -> { Model.d_id = n k; d_ts = n stamp; d_data = n pl }
+                         | _ -> failwith "item")
+                       (items its))
+                | "d", [ k ] -> Model.MDel { Model.m_id = n k; m_ts = n stamp }
+                | "D", [ its ] -> Model.MDelMany (List.map (fun k -> { Model.m_id = n k; m_ts = n stamp }) (items its))
+                | _ -> failwith "bad issue"
+              in
+              let acks = List.filter (fun j -> links.(j)) sel in
+              c := Model.cstep !c (Model.CIssue (nat_of_int i, m, List.map nat_of_int acks));
+              pending.(i) <- pending.(i) @ [ m ];
+              let res =
+                if List.length acks = List.length sel then "ok"
+                else Printf.sprintf "cf.%d.%d" (List.length acks) (List.length sel)
+              in
+              "I:" ^ res ^ touched_dump (i :: sel)
+            end
+          | [ "L"; j; b ] -> links.(int_of_string j) <- (b = "1"); "L:"
+          | [ "B"; i; j ] ->
+            let i = int_of_string i and j = int_of_string j in
+            if pending.(i) = [] then "B:empty" ^ touched_dump [ j ]
+            else if not links.(j) then "B:fail" ^ touched_dump [ j ]
+            else begin
+              c := Model.cstep !c (Model.CBatch (nat_of_int j, pending.(i)));
+              "B:ok" ^ touched_dump [ j ]
+            end
+          | [ "F"; i ] -> pending.(int_of_string i) <- []; "F:"
+          | [ "X"; j; i ] ->
+            let j = int_of_string j and i = int_of_string i in
+            if links.(i) then full_repair j i;
+            "X:" ^ touched_dump [ j ]
+          | [ "XD"; j; i ] ->
+            let j = int_of_string j and i = int_of_string i in
+            if links.(i) then begin
+              let m, r = Model.exchange_diff (nodeat j) (nodeat i) in
+              slots.(j) <- Some (m, r);
+              "XD:F" ^ show_pairs m ^ show_pairs r
+            end else begin
+              slots.(j) <- None;
+              "XD:fail"
+            end
+          | [ "XR"; j ] ->
+            let j = int_of_string j in
+            (match slots.(j) with
+             | Some (_, r) ->
+               c := Model.cstep !c (Model.CDiffRemovals (nat_of_int j, r));
+               "XR:ok" ^ touched_dump [ j ]
+             | None -> "XR:noslot" ^ touched_dump [ j ])
+          | [ "XM"; j; i ] ->
+            let j = int_of_string j and i = int_of_string i in
+            (match slots.(j) with
+             | Some (m, _) ->
+               if links.(i) || m = [] then begin
+                 c := Model.cstep !c (Model.CFetchApply (nat_of_int j, nat_of_int i, m));
+                 "XM:ok" ^ touched_dump [ j ]
+               end else "XM:fail" ^ touched_dump [ j ]
+             | None -> "XM:noslot" ^ touched_dump [ j ])
+          | [ "P"; i ] ->
+            let i = int_of_string i in
+            c := Model.cstep !c (Model.CPurge (nat_of_int i));
+            "P:" ^ touched_dump [ i ]
+          | [ "R"; i ] ->
+            let i = int_of_string i in
+            c := Model.cstep !c (Model.CRestart (nat_of_int i));
+            slots.(i) <- None;
+            "R:" ^ touched_dump [ i ]
+          | [ "Q" ] ->
+            Array.fill links 0 nn true;
+            for j = 0 to nn - 1 do
+              for i = 0 to nn - 1 do
+                if i <> j then full_repair j i
+              done
+            done;
+            "Q:" ^ touched_dump (List.init nn (fun x -> x))
+          | _ -> "?tok")
+        (pairs rest)
+    in
+    String.concat " | " outs
+  | _ -> "?bad-case"
+
 let () =
   let comp = if Array.length Sys.argv > 1 then Sys.argv.(1) else "" in
   let f =
@@ -237,6 +389,7 @@ let () =
     | "hlc" -> run_hlc
     | "orswot" -> run_orswot
     | "actor" -> run_actor_gen false true
+    | "cluster" -> run_cluster
     | "actor-legacy-d2" -> run_actor_gen false false
     | _ -> prerr_endline ("unknown component " ^ comp); exit 2
   in
